@@ -11,8 +11,8 @@ from fractions import Fraction as Fr
 VERIF = os.path.dirname(os.path.dirname(os.path.abspath(__file__)))
 REPO = os.environ.get("LNN_REPO", "/repo")
 LEAN_DIR = os.path.join(VERIF, "lean")
-EVIDENCE_DIR = os.path.join(VERIF, "evidence")
-REPLAY_DIR = os.path.join(VERIF, "replays")
+EVIDENCE_DIR = os.environ.get("VERIF_EVIDENCE_DIR") or os.path.join(VERIF, "evidence")      # redirected only by tools/regress_seeds_wt.sh
+REPLAY_DIR = os.environ.get("VERIF_REPLAY_DIR") or os.path.join(VERIF, "replays")
 CORPUS_DIR = os.path.join(VERIF, "corpus")
 KNOWN_FINDINGS = os.path.join(VERIF, "known_findings.json")
 PY = "/venv/bin/python"
